@@ -436,6 +436,15 @@ func init() {
 			}
 			s, err := newSession(user, pw, key, 120*time.Millisecond, uint16(1+g.pick(3)))
 			sessionUseChecksum = nil
+			// every fifth session runs with the package's clock hook (it stamps frames) an hour off, forwards or backwards:
+			// nothing but the time stamp inside the frames may depend on it
+			if i%5 == 3 {
+				skew := time.Hour
+				if i%10 == 3 {
+					skew = -time.Hour
+				}
+				rscp.Now = func() time.Time { return time.Now().Add(skew) }
+			}
 			if err != nil {
 				continue
 			}
@@ -505,6 +514,7 @@ func init() {
 				}
 			}
 			s.close()
+			rscp.Now = time.Now
 			if v := authFirstViolation(res, s.authTag, user, pw); v != "" {
 				addVerdict(&prop, "FAIL C09 "+v)
 			}
